@@ -1,0 +1,14 @@
+//go:build verif
+
+// Contracts for package main, checked by /verif (govc). Comment-only file.
+package main
+
+// C18: the version handed to the validators is the linker-provided one (if any) with one leading "v" removed
+// exactly when it is a semantic version; everything else about the build info is left as it was.
+//@ func buildVersion$1
+//@   property C18
+//@   requires i != nil
+//@   modifies *i
+//@   ensures [linker_version_wins_and_v_is_stripped]
+//@        let v = (version != "" ? version : old(i.GitVersion)) ::
+//@        i.GitVersion == ((hasPrefix(v, "v") && svValid(v)) ? substr(v, 1, len(v) - 1) : v)
